@@ -655,6 +655,105 @@ func pickContent(r *common.RNG) int {
 	return r.Intn(len(contents) - 1)
 }
 
+// setFieldLeft left-aligns s in the 20-byte field starting at start.
+func setFieldLeft(e []byte, start int, s string) []byte {
+	nb := append([]byte{}, e...)
+	for i := 0; i < 20; i++ {
+		nb[start+i] = ' '
+	}
+	if len(s) > 20 {
+		s = s[:20]
+	}
+	copy(nb[start:], s)
+	return nb
+}
+
+type rawCase struct {
+	raw []byte
+	tag string
+}
+
+// degenerateEntries enumerates, systematically, entries that are valid except for one
+// degenerate field: each numeric field blank, nearly blank, a lone sign, signed, overflowing,
+// with trailing or inner junk, left-aligned; each position of each hex field replaced by a
+// non-hex character, a separator, NUL, and by the other case.  The entry names the output of
+// content ci for id idIdx.
+func degenerateEntries(idIdx, ci int) []rawCase {
+	id := ids[idIdx]
+	d := contents[ci]
+	e := validEntry(id, outOf(d), int64(len(d)), 1700000000000000123)
+	var out []rawCase
+	add := func(b []byte, tag string) { out = append(out, rawCase{b, tag}) }
+	add(e, "deg:valid")
+	ok := fmt.Sprint(len(d))
+	nums := []string{"", ok, "0", "-", "+", "+" + ok, "-" + ok, "-0", "+0", "--1", "+-1", "0000000000000000000" + ok,
+		"00000000000000000000", "99999999999999999999", "18446744073709551616", "18446744073709551615",
+		"9223372036854775808", "9223372036854775807", "-9223372036854775808", "-9223372036854775809",
+		ok + " ", ok + "\n", ok + "\x00", " " + ok + " ", "0x1", "1e0", "1_0", "\u0661", "\t" + ok, "\x00", "a", ".", ok + ".0"}
+	for fi, f := range []int{sizeField, timeField} {
+		fn := []string{"size", "time"}[fi]
+		for _, v := range nums {
+			add(setField(e, f, v), fmt.Sprintf("deg:%s:right:%q", fn, v))
+			if v != "" {
+				add(setFieldLeft(e, f, v), fmt.Sprintf("deg:%s:left:%q", fn, v))
+			}
+		}
+		// every single position of the field holding the only non-space character
+		for pos := 0; pos < 20; pos++ {
+			nb := setField(e, f, "")
+			nb[f+pos] = '1'
+			add(nb, fmt.Sprintf("deg:%s:lone-digit@%d", fn, pos))
+			nb2 := setField(e, f, "")
+			nb2[f+pos] = '-'
+			add(nb2, fmt.Sprintf("deg:%s:lone-minus@%d", fn, pos))
+		}
+	}
+	for fi, f := range []int{3, 3 + 65} {
+		fn := []string{"id", "out"}[fi]
+		for pos := 0; pos < 64; pos++ {
+			for _, ch := range []byte{'g', 'G', ' ', 0, ':', '-', 0xff} {
+				nb := append([]byte{}, e...)
+				nb[f+pos] = ch
+				add(nb, fmt.Sprintf("deg:%s:nonhex", fn))
+			}
+			if c := e[f+pos]; c >= 'a' && c <= 'f' {
+				nb := append([]byte{}, e...)
+				nb[f+pos] = c - 32
+				add(nb, fmt.Sprintf("deg:%s:upper", fn))
+			} else {
+				// another digit: a different (well-formed) id / output
+				nb := append([]byte{}, e...)
+				nb[f+pos] = '0' + (c-'0'+1)%10
+				add(nb, fmt.Sprintf("deg:%s:other-digit", fn))
+			}
+		}
+		up := append([]byte{}, e...)
+		for pos := 0; pos < 64; pos++ {
+			if c := up[f+pos]; c >= 'a' && c <= 'f' {
+				up[f+pos] = c - 32
+			}
+		}
+		add(up, fmt.Sprintf("deg:%s:all-upper", fn))
+	}
+	// separators, header, terminator, length
+	for _, pos := range []int{0, 1, 2, 3 + 64, 3 + 64 + 1 + 64, sizeField + 20, len(e) - 1} {
+		for _, ch := range []byte{' ', '\t', '\n', 0, 'v', '1', '2', 'x'} {
+			if e[pos] != ch {
+				nb := append([]byte{}, e...)
+				nb[pos] = ch
+				add(nb, "deg:separator")
+			}
+		}
+	}
+	for cut := 0; cut <= 3; cut++ {
+		add(e[:len(e)-cut], "deg:length")
+		add(append(append([]byte{}, e...), make([]byte, cut)...), "deg:length")
+		add(append(append([]byte{}, e...), []byte("\n\n\n")[:cut]...), "deg:length")
+	}
+	add([]byte{}, "deg:length")
+	return out
+}
+
 func genHistory(r *common.RNG) ([]hop, []string) {
 	n := 3 + r.Intn(28)
 	var hs []hop
@@ -799,6 +898,15 @@ func runC05(f *common.Flags, res *common.Result, m *mdl) {
 			}
 		}
 	}
+	// 1b. systematically degenerate entries, with the named output present
+	for _, ci := range []int{1, 0} {
+		for _, rc := range degenerateEntries(0, ci) {
+			hs := []hop{{Kind: "put", ID: 1, C: ci}, {Kind: "write", K: "a", ID: 0, Raw: rc.raw}, {Kind: "get", ID: 0},
+				{Kind: "getbytes", ID: 0}, {Kind: "getfile", ID: 0}}
+			res.Count("raw:" + strings.SplitN(rc.tag, "@", 2)[0])
+			one(hs, "degenerate")
+		}
+	}
 	r := common.NewRNG(f.Seed)
 	// 2. the entry codec alone: raw entry, then Get / GetBytes / GetFile (with and without the output present)
 	nCodec, nHist := 1500, 2000
@@ -824,5 +932,5 @@ func runC05(f *common.Flags, res *common.Result, m *mdl) {
 		}
 		one(hs, "history")
 	}
-	res.Rule = fmt.Sprintf("corpus, %d raw index entries (valid, upper-case hex, wrong lengths, signs, overflowing and malformed numbers, foreign id, bad separators, random bytes) looked up through Get/GetBytes/GetFile, then %d random histories of 3..30 operations over 4 ids and 6 contents (empty, two equal-length pairs, one 40000-byte content) mixing Put/PutBytes/Get/GetBytes/GetFile/OutputFile with truncate/extend/flip/delete/replace of index and data files and raw entries; every result (found or not, bytes, size, OutputID, time, file name) and the final directory listing with contents are compared with the model; direct oracles: SHA-256 of returned bytes, os.Stat size of the named file, no panic, Put-then-GetBytes/GetFile; a history is non-trivial when it contains both a successful and a rejected GetBytes/GetFile", nCodec, nHist)
+	res.Rule = fmt.Sprintf("corpus, a systematic family of entries valid but for one degenerate field (each numeric field blank, a lone digit or sign at each of its 20 positions, signed, zero-padded, overflowing int64/uint64, trailing/inner junk, left-aligned; each of the 2x64 hex positions replaced by non-hex bytes, the other case, another digit; every separator and the header replaced; lengths +-3), %d raw index entries (valid, upper-case hex, wrong lengths, signs, overflowing and malformed numbers, foreign id, bad separators, random bytes) looked up through Get/GetBytes/GetFile, then %d random histories of 3..30 operations over 4 ids and 6 contents (empty, two equal-length pairs, one 40000-byte content) mixing Put/PutBytes/Get/GetBytes/GetFile/OutputFile with truncate/extend/flip/delete/replace of index and data files and raw entries; every result (found or not, bytes, size, OutputID, time, file name) and the final directory listing with contents are compared with the model; direct oracles: SHA-256 of returned bytes, os.Stat size of the named file, no panic, Put-then-GetBytes/GetFile; a history is non-trivial when it contains both a successful and a rejected GetBytes/GetFile", nCodec, nHist)
 }
